@@ -2,7 +2,14 @@
 #[derive(Clone)]
 pub struct Rng(pub u64);
 impl Rng {
-    pub fn new(seed: u64) -> Self { Rng(seed.wrapping_mul(0x9E3779B97F4A7C15).wrapping_add(0x1234567)) }
+    /// the seed is scrambled through the splitmix finalizer twice so that consecutive seeds give unrelated
+    /// streams (a plain `seed * gamma` start would make seed s+1 the stream of seed s shifted by one draw)
+    pub fn new(seed: u64) -> Self {
+        let mut r = Rng(seed ^ 0xD1B54A32D192ED03);
+        let a = r.next();
+        let b = r.next();
+        Rng(a ^ b.rotate_left(32) ^ seed.wrapping_mul(0xC2B2AE3D27D4EB4F))
+    }
     pub fn next(&mut self) -> u64 {
         self.0 = self.0.wrapping_add(0x9E3779B97F4A7C15);
         let mut z = self.0;
